@@ -359,14 +359,14 @@ def check_hull_corners(ctx, db):
 
 def run(ctx):
     db = ctx.db
-    check_aggregates(ctx, db)
-    check_minmax(ctx, db)
-    check_cache_coherence(ctx, db)
-    check_extrema_effect(ctx, db)
-    check_init(ctx, db)
-    check_extrema_consumers(ctx, db)
-    check_dimensions(ctx, db)
-    check_hull_corners(ctx, db)
+    ctx.attempt(check_aggregates, ctx, db)
+    ctx.attempt(check_minmax, ctx, db)
+    ctx.attempt(check_cache_coherence, ctx, db)
+    ctx.attempt(check_extrema_effect, ctx, db)
+    ctx.attempt(check_init, ctx, db)
+    ctx.attempt(check_extrema_consumers, ctx, db)
+    ctx.attempt(check_dimensions, ctx, db)
+    ctx.attempt(check_hull_corners, ctx, db)
     from .. import fresh
     nf = 0
     for f in db.fn('gdstk::Cell::convex_hull', all=True):
